@@ -899,7 +899,11 @@ class XlsxRowWriter(AbstractRowWriter):
             assert item is not None
             assert not isinstance(item, bytes), "item must be a string: %r" % item
             column_index = self.location.cell
-            if isinstance(item, str):
+            if isinstance(item, str) and item.startswith("<r>") and item.endswith("</r>"):
+                # The workbook takes a string like this for the XML of a rich string it has built itself and stores
+                # it as is, which loses the text. Written as rich string in 3 parts it gets escaped like any other.
+                write_result = self.worksheet.write_rich_string(row_index, column_index, item[:1], item[1:2], item[2:])
+            elif isinstance(item, str):
                 # Write strings as explicit strings to prevent strings starting with '=' from being converted to
                 # formulas.
                 write_result = self.worksheet.write_string(row_index, column_index, item)
